@@ -976,6 +976,11 @@ def predict(M, P, opts, relaxed):
             excs.add("ValueError")
             rules.add("scrypt_r_times_p_limit")
             continue
+        if M.is_scrypt and m.get("dflt") is not None and m["dflt"] >= 16 * (m.get("bsize") or 1):
+            # rfc 7914: N = 2**rounds must be below 2**(128*r/8)
+            excs.add("ValueError")
+            rules.add("scrypt_n_vs_r_limit")
+            continue
         if M.is_scrypt and m.get("ident") == "$7$" and m.get("pin") is None and (4 * (m.get("ssize") or 0) + 2) // 3 > (M.mx_s or 1 << 62):
             # the $7$ format stores the salt base64-encoded; the encoded salt must still fit max_salt_size
             excs.add("ValueError")
